@@ -507,7 +507,7 @@ func (fx *FuncCtx) applyContract(st *State, ct *Contract, names []string, args [
 	}
 	pkg := fx.eng.pkgOfContract(ct, callee)
 	pre := st.clone()
-	envPre := &Env{fx: fx, st: pre, old: pre, vars: vars, pkg: pkg, errs: &fx.clauseErrs}
+	envPre := &Env{fx: fx, st: pre, old: pre, vars: vars, pkg: pkg, errs: &fx.clauseErrs, lets: ct.Lets}
 	short := key
 	if i := strings.LastIndex(short, ":"); i >= 0 {
 		short = short[i+1:]
@@ -578,8 +578,16 @@ func (fx *FuncCtx) applyContract(st *State, ct *Contract, names []string, args [
 		post["ret0"] = res
 		post["ret"] = res
 	}
-	envPost := &Env{fx: fx, st: st, old: pre, vars: post, pkg: pkg, errs: &fx.clauseErrs}
+	envPost := &Env{fx: fx, st: st, old: pre, vars: post, pkg: pkg, errs: &fx.clauseErrs, lets: ct.Lets}
 	for _, c := range ct.Ensures {
+		if cond, ok := unchangedGuard(c.Expr); ok {
+			// imp(cond, unchanged()): under cond the callee leaves the heap as it was
+			ct := envPost.eval(cond)
+			if ct.T != "" && ct.Bad == "" {
+				fx.restoreWhen(st, pre, ct.T)
+				continue
+			}
+		}
 		t := fx.evalClause(c, envPost)
 		fx.assume(st, t)
 	}
@@ -1023,4 +1031,48 @@ func arraySorts(s string) (string, string) {
 		}
 	}
 	return inner, ""
+}
+
+// unchangedGuard matches imp(<cond>, unchanged()).
+func unchangedGuard(x ast.Expr) (ast.Expr, bool) {
+	c, ok := x.(*ast.CallExpr)
+	if !ok || len(c.Args) != 2 {
+		return nil, false
+	}
+	if id, ok := c.Fun.(*ast.Ident); !ok || id.Name != "imp" {
+		return nil, false
+	}
+	u, ok := c.Args[1].(*ast.CallExpr)
+	if !ok || len(u.Args) != 0 {
+		return nil, false
+	}
+	if id, ok := u.Fun.(*ast.Ident); !ok || id.Name != "unchanged" {
+		return nil, false
+	}
+	return c.Args[0], true
+}
+
+// restoreWhen makes the post-state equal to the pre-state (except ghost stream
+// cursors) on the paths where cond holds.
+func (fx *FuncCtx) restoreWhen(st, pre *State, cond string) {
+	keep := st.clone()
+	rest := pre.clone()
+	for c, t := range st.Heap {
+		if strings.HasPrefix(c, "G$rd_pos") || strings.HasPrefix(c, "G$it_") {
+			rest.Heap[c] = t
+		}
+	}
+	rest.Cells = st.Cells
+	rest.Alloc = st.Alloc
+	rest.Defers = st.Defers
+	if st.Base != pre.Base {
+		// the callee's frame was the whole heap: keep cursor components of the new epoch out of reach
+		rest.Base = pre.Base
+	}
+	m := fx.merge([]edge{{cond: and(st.R, cond), st: rest}, {cond: and(st.R, not(cond)), st: keep}})
+	r := st.R
+	defers := st.Defers
+	*st = *m
+	st.R = r
+	st.Defers = defers
 }
